@@ -1731,6 +1731,22 @@ func (x *FnExec) mapUpdateGuards(fr *frame, n *node, in *ssa.MapUpdate, mt *type
 		if g.In != "" && !strings.HasSuffix(funcKey(x.top), "."+g.In) && !strings.HasSuffix(funcKey(fr.fn), "."+g.In) {
 			continue
 		}
+		if g.Ord != 0 {
+			// #k: the k-th map write with this key type in the function, in source order
+			ord := 1
+			for _, b := range fr.fn.Blocks {
+				for _, o := range b.Instrs {
+					if mu, ok := o.(*ssa.MapUpdate); ok && mu != in && mu.Pos() < in.Pos() {
+						if omt, ok := mu.Map.Type().Underlying().(*types.Map); ok && types.TypeString(omt.Key(), func(*types.Package) string { return "" }) == keyName {
+							ord++
+						}
+					}
+				}
+			}
+			if ord != g.Ord {
+				continue
+			}
+		}
 		ctx := &evalCtx{env: n.env, st: n.st, old: fr.oldState, block: n.b, at: in, extra: map[string]Val{
 			"target": {S: m.S, T: in.Map.Type()}, "key": {S: x.scalar(k), T: mt.Key()}, "value": {S: x.scalar(v), T: mt.Elem()}}}
 		goal, err := x.evalBool(fr, g.Expr, ctx)
